@@ -1,5 +1,6 @@
 import Driver.Proto
 import PolyVerif.Gen.Transform
+import PolyVerif.Model.AabbFromPoints
 
 namespace Driver.C17
 open PolyVerif PolyVerif.Gen
@@ -64,6 +65,10 @@ def handle (op : String) (args : List String) : Option String := do
       let b ← bbOf (fs.take 6); let c ← bbOf (fs.drop 6); pure (fsHex (bbTo (b.EncapsulateBounds c)))
   | "c17.aabb.closest" => do
       let b ← bbOf (fs.take 6); let p ← v3Of (fs.drop 6); pure (fsHex (v3To (b.ClosestPoint p)))
+  | "c17.aabb.frompoints" => do       -- args: points (3n, n ≥ 1)
+      match v3List fs with
+      | p :: ps => pure (fsHex (bbTo (PolyVerif.C17.fromPoints p ps)))
+      | [] => none
   | "c17.aabb.contains" => do
       let b ← bbOf (fs.take 6); let p ← v3Of (fs.drop 6); pure (boolStr (b.Contains p))
   | "c17.aabb.intersects" => do
